@@ -43,6 +43,7 @@ type Exec struct {
 	usedContracts map[string]bool
 	inPanicHandler bool
 	inPanicExit bool
+	usesScratch bool // the verified function's contract mentions a scratch ghost
 	pendingPanicVal *Val
 	inheritedMeasure bool
 	assignsEnv *Env
